@@ -98,7 +98,8 @@ def run_history(job):
             else:
                 projgen.write_project(sb, st[1], under)
                 os.makedirs(sb.path("out"), exist_ok=True)
-                case = {"id": 0, "project": under, "out": "out", "mode": st[2], "viz": bool(st[3])}
+                case = {"id": 0, "project": under, "out": "out", "mode": st[2], "viz": bool(st[3]),
+                        "type_mappings": (st[1].get("config") or {}).get("typeMappings")}
                 import subprocess
                 r = subprocess.run([vlib.harness_bin("c13"), "lib"], input=json.dumps(case) + "\n", stdout=subprocess.PIPE,
                                    stderr=subprocess.DEVNULL, text=True, timeout=120, env=vlib.ENV, cwd=sb.root)
@@ -115,6 +116,57 @@ def run_history(job):
     res = dict(res)
     res["mutations"] = notes
     return res
+
+
+def read_out(sb, out="out"):
+    files = {}
+    od = sb.path(out)
+    if os.path.isdir(od):
+        for n in sorted(os.listdir(od)):
+            q = os.path.join(od, n)
+            if os.path.isfile(q):
+                files[n] = vlib.strip_generated_at(open(q, "rb").read()).decode("utf-8", "replace")
+    return files
+
+
+ENTRY_POINTS = ("conf-only", "c-file", "lib", "build")
+
+
+def run_entry(job):
+    """the same sources and configuration through another entry point, into a fresh directory:
+    conf-only = CLI with every setting in tauri.conf.json and no flags but --force; c-file = CLI -c <file>
+    (standalone configuration file); lib = generate_from_config; build = BuildSystem::generate_at_build_time"""
+    import subprocess
+    kind, case, mode = job
+    cfg = dict(case.get("config") or {})
+    with vlib.Sandbox("c13e") as sb:
+        sb.write_files(projgen.render_project(case), under="proj")
+        status, log = 0, ""
+        if kind in ("conf-only", "build"):
+            sb.write("tauri.conf.json", json.dumps({"plugins": {"typegen": dict(cfg, projectPath="proj", outputPath="out",
+                                                                              validationLibrary=mode, force=True)}}, indent=1))
+            if kind == "conf-only":
+                status, log = sb.cli(["generate", "--force"])
+            else:
+                r = subprocess.run([vlib.harness_bin("c13"), "build1"], cwd=sb.root, stdout=subprocess.PIPE, stderr=subprocess.PIPE,
+                                   text=True, timeout=120, env=vlib.ENV)
+                status, log = r.returncode, r.stderr[-400:]
+        elif kind == "c-file":
+            sb.write("typegen-settings.json", json.dumps({"project_path": "proj", "output_path": "out", "validation_library": mode,
+                                                          "type_mappings": cfg.get("typeMappings"),
+                                                          "exclude_patterns": cfg.get("excludePatterns")}))
+            status, log = sb.cli(["generate", "--force", "-c", "typegen-settings.json"])
+        else:
+            req = {"id": 0, "project": "proj", "out": "out", "mode": mode, "viz": False, "type_mappings": cfg.get("typeMappings")}
+            os.makedirs(sb.path("out"), exist_ok=True)
+            r = subprocess.run([vlib.harness_bin("c13"), "lib"], input=json.dumps(req) + "\n", stdout=subprocess.PIPE,
+                               stderr=subprocess.DEVNULL, text=True, timeout=120, env=vlib.ENV, cwd=sb.root)
+            try:
+                ans = json.loads(r.stdout.strip().split("\n")[-1])
+            except Exception:
+                ans = {"ok": False, "error": "driver gave no answer (exit %s)" % r.returncode}
+            status, log = (0 if ans.get("ok") else 1), json.dumps(ans)
+        return {"status": status, "log": log, "files": read_out(sb)}
 
 
 def bigger_project(rng, case):
@@ -226,7 +278,8 @@ def expected_labels(out, sk, zod):
             res["commands.ts"].append(("wrapper", cname(d[1])))
     if ev:
         res["events.ts"] = [("listener", sk.evs[int(d[1]) - 1],
-                             sk.pays[int(d[2])] if sk.pays[int(d[2])] in sk.tid else None) for d in ev[0]]
+                             sk.pays[int(d[2])] if (sk.pays[int(d[2])] in sk.tid and sk.pays[int(d[2])] not in sk.mapped) else None)
+                            for d in ev[0]]
     for d in ix:
         res["index.ts"].append(("reexport", ["./types", "./commands", "./events"][int(d[1])]))
     return res
@@ -489,6 +542,25 @@ def evaluate(groups, tier):
             results.append(("viz", Outcome(dict(case_id, aspect="viz"), all(r.corr for r in vr), not fails, None,
                                            {"runs": len(vr), "failures": fails[:4],
                                             "distinct_versions": {f: len(versions(vr, f)) for f in VIZ}}, nontriv)))
+        # ---- aspect: the same sources and configuration through every entry point
+        if g.get("entries"):
+            fails = []
+            tc = versions([r for r in g["runs"] if "--visualize-deps" not in r.flags], ".typecache")
+            ref = {f: g["versions"][f][0] for f in TS}
+            ref[".typecache"] = tc[0] if tc else None
+            for e in g["entries"]:
+                r = e["res"]
+                if r["status"] != 0:
+                    fails.append("%s: generation fails (status %s): %s" % (e["kind"], r["status"], r["log"][-200:]))
+                    continue
+                # (the driver of the library entry sets Option fields the CLI leaves unset; the cache key is C08's subject)
+                for f in list(TS) + ([".typecache"] if e["kind"] != "lib" else []):
+                    if r["files"].get(f) != ref.get(f):
+                        x = relation(ref.get(f), r["files"].get(f)) if (f in TS and (ref.get(f), r["files"].get(f)) in rel) else "different bytes"
+                        fails.append("%s: %s differs from the CLI run with flags (%s)" % (e["kind"], f, x))
+            results.append(("entry-points", Outcome(dict(case_id, aspect="entry-points"), True, not fails, None,
+                                                    {"entry_points": list(ENTRY_POINTS), "failures": fails[:6],
+                                                     "type_mappings": (g["case"].get("config") or {}).get("typeMappings")}, nontriv)))
         # ---- aspect: the prior state of the output directory must not matter
         if g.get("prior"):
             fails = []
@@ -586,6 +658,7 @@ def build_group(case, shape, mode, rng, nbase, nnoise, ntrans, transforms=None):
             continue
         g["variants"][name] = (vc, make_runs(vc, mode, [()] * ntrans, name))
     g["prior"] = prior_scenarios(rng, case, mode)
+    g["entries"] = [{"kind": k, "res": None} for k in ENTRY_POINTS]
     return g
 
 
@@ -606,7 +679,11 @@ def execute(groups):
     hres = vlib.pmap(run_history, [sc["steps"] for sc in hist], workers=min(32, 2 * vlib.NCPU))
     for sc, x in zip(hist, hres):
         sc["res"] = x
-    return len(jobs) + sum(sum(1 for st in sc["steps"] if st[0] != "mutate") for sc in hist)
+    ent = [(g, e) for g in groups for e in g.get("entries", [])]
+    eres = vlib.pmap(run_entry, [(e["kind"], g["case"], g["mode"]) for g, e in ent], workers=min(32, 2 * vlib.NCPU))
+    for (g, e), x in zip(ent, eres):
+        e["res"] = x
+    return len(jobs) + sum(sum(1 for st in sc["steps"] if st[0] != "mutate") for sc in hist) + len(ent)
 
 
 # ----------------------------------------------------------------------------- corpus
